@@ -178,6 +178,18 @@ impl Run {
             println!("KNOWN-FINDING: property={} {id}: {what}", self.property);
         }
         let nviol = self.violations.len();
+        // thorough tier: the run of the second cryptographic configuration (made just before
+        // by bin/check) is embedded
+        if !is_sub() {
+            let sub = verif_dir().join("evidence").join(format!(".{}.B.json", self.property));
+            if let Ok(text) = std::fs::read_to_string(&sub) {
+                if let Ok(v) = serde_json::from_str::<Value>(&text) {
+                    self.coverage.insert("second_configuration".into(), json!({"config": "B(p256+mlkem768)", "coverage": v["coverage"], "wall_s": v["wall_s"], "violations": v["violations"]}));
+                }
+                let _ = std::fs::remove_file(&sub);
+            }
+        }
+        self.coverage.insert("config".into(), json!(crate::wire::NAME));
         self.coverage.insert("known_findings_seen".into(), json!(self.known.keys().collect::<Vec<_>>()));
         let ev = json!({
             "property_id": self.property,
@@ -191,7 +203,7 @@ impl Run {
         });
         let dir = verif_dir().join("evidence");
         let _ = std::fs::create_dir_all(&dir);
-        let path = dir.join(format!("{}.json", self.property));
+        let path = if is_sub() { dir.join(format!(".{}.B.json", self.property)) } else { dir.join(format!("{}.json", self.property)) };
         std::fs::write(&path, serde_json::to_string_pretty(&ev).unwrap()).unwrap_or_else(|e| machinery(&format!("cannot write evidence: {e}")));
         for (_, p) in &self.violations {
             println!("VIOLATION property={} replay={}", self.property, p.display());
@@ -203,6 +215,10 @@ impl Run {
             1
         }
     }
+}
+
+pub fn is_sub() -> bool {
+    std::env::var("VERIF_SUB").is_ok()
 }
 
 pub fn read_json(p: &Path) -> Value {
